@@ -668,6 +668,7 @@ asn_double2REAL(REAL_t *st, double dbl_value) {
 	char assertion_buffer1[9 - sizeof(dbl_value)] CC_NOTUSED;
 	char assertion_buffer2[sizeof(dbl_value) - 7] CC_NOTUSED;
 	uint8_t *ptr = buf;
+	uint8_t *mstart;	/* First byte of mantissa */
 	uint8_t *mstop;		/* Last byte of mantissa */
 	unsigned int mval;	/* Value of the last byte of mantissa */
 	unsigned int bmsign;	/* binary mask with sign */
@@ -752,8 +753,14 @@ asn_double2REAL(REAL_t *st, double dbl_value) {
 #endif	/* VLM_ASN1C_VERIF */
     }
 
-	/* Remove parts of the exponent, leave mantissa and explicit 1. */
-	dscr[0] = 0x10 | (dscr[0] & 0x0f);
+	if(expval < -1022) {
+		/* Subnormal: there is no implicit 1, the exponent is fixed. */
+		dscr[0] = (dscr[0] & 0x0f);
+		expval = -1022;
+	} else {
+		/* Remove parts of the exponent, leave mantissa and explicit 1. */
+		dscr[0] = 0x10 | (dscr[0] & 0x0f);
+	}
 
 	/* Adjust exponent in a very unobvious way */
 	expval -= 8 * ((mstop - dscr) + 1) - 4;
@@ -816,8 +823,10 @@ asn_double2REAL(REAL_t *st, double dbl_value) {
 		*ptr++ = expval;
 	}
 
-	buflen = (mstop - dscr) + 1;
-	memcpy(ptr, dscr, buflen);
+	/* DER wants mantissa in the fewest octets (11.3.2): skip leading zeros */
+	for(mstart = dscr; mstart < mstop && *mstart == 0; mstart++);
+	buflen = (mstop - mstart) + 1;
+	memcpy(ptr, mstart, buflen);
 	ptr += buflen;
 	buflen = ptr - buf;
 
